@@ -138,13 +138,17 @@ func writeReplay(dir, prop string, a *AggObl, v *Verifier, work, repo string) re
 	os.MkdirAll(dir, 0755)
 	rf := &ReplayFile{Property: prop, Obligation: a.Name, Function: a.Func, Kind: a.Kind, Clause: a.Src, Position: a.Pos, Path: a.Path,
 		Status: a.Status, Solver: a.Solver, Output: a.Output, Repo: repo}
-	if a.failing != nil && a.Status == "failed" {
+	if a.failing != nil && (a.Status == "failed" || a.Status == "unknown") && a.failing.x != nil {
+		// a model of the negated VC, or -- when the quantified facts keep the solver from answering "sat" -- a
+		// candidate model of the quantifier-free part (values to start a manual reproduction from; not validated)
 		mo := modelFor(a.failing, work)
 		rf.Model = parseModel(mo)
 		if len(mo) > 4000 {
 			mo = mo[:4000] + "\n..."
 		}
-		rf.Output = mo
+		if a.Status == "failed" || len(rf.Model) > 0 {
+			rf.Output = a.Output + "\n" + mo
+		}
 	}
 	test := replayTestFor(a.Func)
 	if availableReplayTests()[test] {
